@@ -120,6 +120,7 @@ contract(
         ('clamped_eigenvalues', 'is_tensor(self._da) and val(self._da) == clampmin(eigvals(old(val(awaited(self._a_factor)))), 0.0)'),
         ('stored_in_inverse_dtype', 'implies(self.inv_dtype is not None, self._qa.dtype is self.inv_dtype and self._da.dtype is self.inv_dtype)'),
         ('shapes', 'self._qa.shape == old(awaited(self._a_factor).shape) and len(self._da.shape) == 1 and self._da.shape[0] == old(awaited(self._a_factor).shape[0])'),
+        ('distinct_new_tensors', 'self._qa is not self._da and is_fresh(self._qa) and is_fresh(self._da)'),
         ('factor_untouched', 'val(awaited(self._a_factor)) == old(val(awaited(self._a_factor))) and awaited(self._a_factor) is old(awaited(self._a_factor))'),
     ],
     modifies=['self._qa', 'self._da', 'self._a_factor', '*.resolved', 'ghost:next_sid'],
@@ -128,9 +129,10 @@ contract(
     f'{E}.compute_g_inv', props=['C01', 'C09', 'C13'], params={'damping': KDyn},
     requires=DAMP + SYM + PENDING('_g_factor') + PENDING('_da') + [
         ('factor_2d', 'implies(self._g_factor is not None, len(awaited(self._g_factor).shape) == 2)'),
-        # compute_a_inv ran before on this rank (factors co-located when eigenvalues are pre-divided)
-        ('a_eigenvalues_present', 'self._da is not None and len(awaited(self._da).shape) == 1')],
-    raises=[('RuntimeError', 'self._g_factor is None')],
+        ('a_eigenvalues_1d', 'implies(self._da is not None, len(awaited(self._da).shape) == 1)')],
+    raises=[('RuntimeError', 'self._g_factor is None'),
+            # the code asserts that A's eigenvalues are already on this rank (computed or received)
+            ('AssertionError', 'self._g_factor is not None and self._da is None')],
     lets={'dgv': 'clampmin(eigvals(old(val(awaited(self._g_factor)))), 0.0)'},
     ensures=[
         ('eigenvectors', 'is_tensor(self._qg) and val(self._qg) == eigvecs(old(val(awaited(self._g_factor))))'),
@@ -139,6 +141,11 @@ contract(
         ('predivided', 'implies(self.prediv_eigenvalues, is_tensor(self._dgda) and self._dg is None and self._da is None and '
                        'val(self._dgda) == rdiv(1, sadd(outer(dgv, old(val(awaited(self._da)))), damping)))'),
         ('factor_untouched', 'val(awaited(self._g_factor)) == old(val(awaited(self._g_factor))) and awaited(self._g_factor) is old(awaited(self._g_factor))'),
+        ('fresh_qg', 'is_fresh(self._qg)'),
+        ('fresh_dg', 'implies(self._dg is not None, is_fresh(self._dg))'),
+        ('distinct_dg', 'implies(self._dg is not None, self._dg is not self._qg)'),
+        ('fresh_dgda', 'implies(self.prediv_eigenvalues, is_fresh(self._dgda) and self._dgda is not self._qg)'),
+        ('a_data_kept', 'implies(not self.prediv_eigenvalues, awaited(self._da) is old(awaited(self._da))) and implies(self._da is not None, len(awaited(self._da).shape) == 1)'),
     ],
     modifies=['self._qg', 'self._dg', 'self._da', 'self._dgda', 'self._g_factor', '*.resolved', 'ghost:next_sid'],
 )
@@ -153,6 +160,7 @@ contract(
                 'hdiv(v1, sadd(outer(old(val(awaited(self._dg))), old(val(awaited(self._da)))), damping)))'},
     ensures=[
         ('eigenbasis_solve', 'is_tensor(self._grad) and val(self._grad) == mul(mul(Qg, v2), tr(Qa))'),
+        ('second_order_data_kept', ' and '.join(f'awaited(self.{f}) is old(awaited(self.{f}))' for f in SO)),
         ('gradient_dtype_restored', 'self._grad.dtype is old(self.module.module.weight.grad.dtype)'),
         ('result_is_its_own_tensor', 'is_fresh(self._grad) and len(self._grad.shape) == 2'),
         ('module_gradients_untouched', 'val(self.module.module.weight.grad) == old(val(self.module.module.weight.grad)) and '
@@ -175,14 +183,18 @@ BC_REQ = [('member_of_group', 'in_group(group)'), ('root_is_member', 'rank_in_gr
 contract(
     f'{E}.broadcast_a_inv', props=['C02', 'C03', 'C09', 'C13'], params={'src': KInt, 'group': G},
     requires=BC_REQ + PENDING('_qa') + PENDING('_da') + PENDING('_a_factor') + [
-        ('distinct_buffers', 'implies(self._qa is not None and self._da is not None, awaited(self._qa) is not awaited(self._da))'),
-        ('receiver_knows_the_shape', 'implies((self._qa is None or (not self.prediv_eigenvalues and self._da is None)) and my_rank() != src, '
-                                     'is_tensor(self._a_factor) and len(self._a_factor.shape) == 2)')],
-    raises=[('RuntimeError', '(self._qa is None or (not self.prediv_eigenvalues and self._da is None)) and my_rank() == src')],
+
+        ('factor_2d', 'implies(self._a_factor is not None, len(awaited(self._a_factor).shape) == 2)'),
+        ('eigenvalues_1d', 'implies(self._da is not None, len(awaited(self._da).shape) == 1)')],
+    raises=[('RuntimeError', '(self._qa is None or (not self.prediv_eigenvalues and self._da is None)) and my_rank() == src'),
+            ('AssertionError', '(self._qa is None or (not self.prediv_eigenvalues and self._da is None)) and my_rank() != src and self._a_factor is None')],
     ensures=[
         ('holds_eigenvectors', 'self._qa is not None and implies(not self.prediv_eigenvalues, self._da is not None)'),
-        ('root_keeps_values', 'implies(my_rank() == src, val(awaited(self._qa)) == old(val(awaited(self._qa))))'),
-        ('receive_buffers_match_sender', 'implies(old(self._qa) is None, awaited(self._qa).shape == old(self._a_factor.shape) and awaited(self._qa).dtype is self.inv_dtype)'),
+
+        ('receive_buffers_match_sender', 'implies(old(self._qa) is None, awaited(self._qa).shape == old(awaited(self._a_factor).shape) and awaited(self._qa).dtype is self.inv_dtype)'),
+
+        ('still_1d', 'implies(self._da is not None, len(awaited(self._da).shape) == 1)'),
+        ('factor_kept', 'awaited(self._a_factor) is old(awaited(self._a_factor))'),
         ('alone_nothing_sent', 'implies(group_size(group) == 1, trace() == old(trace()))'),
         ('events', 'implies(group_size(group) != 1, len(trace()) == len(old(trace())) + (1 if self.prediv_eigenvalues else 2))'),
     ],
@@ -192,14 +204,16 @@ MISSING_G = ('(self._qg is None or (not self.prediv_eigenvalues and self._dg is 
 contract(
     f'{E}.broadcast_g_inv', props=['C02', 'C03', 'C09', 'C13'], params={'src': KInt, 'group': G},
     requires=BC_REQ + PENDING('_qg') + PENDING('_dg') + PENDING('_dgda') + PENDING('_g_factor') + PENDING('_a_factor') + [
-        ('distinct_buffers', 'implies(self._qg is not None and self._dg is not None, awaited(self._qg) is not awaited(self._dg)) and '
-                             'implies(self._qg is not None and self._dgda is not None, awaited(self._qg) is not awaited(self._dgda))'),
-        ('receiver_knows_the_shapes', f'implies({MISSING_G} and my_rank() != src, is_tensor(self._g_factor) and len(self._g_factor.shape) == 2 '
-                                      'and implies(self.prediv_eigenvalues, is_tensor(self._a_factor) and len(self._a_factor.shape) == 2))')],
-    raises=[('RuntimeError', f'{MISSING_G} and my_rank() == src')],
+
+        ('factors_2d', 'implies(self._g_factor is not None, len(awaited(self._g_factor).shape) == 2) and '
+                       'implies(self._a_factor is not None, len(awaited(self._a_factor).shape) == 2)')],
+    raises=[('RuntimeError', f'{MISSING_G} and my_rank() == src'),
+            ('AssertionError', f'{MISSING_G} and my_rank() != src and (self._g_factor is None or (self.prediv_eigenvalues and self._a_factor is None))')],
     ensures=[
         ('holds_data', 'self._qg is not None and implies(not self.prediv_eigenvalues, self._dg is not None) and implies(self.prediv_eigenvalues, self._dgda is not None)'),
-        ('root_keeps_values', 'implies(my_rank() == src, val(awaited(self._qg)) == old(val(awaited(self._qg))))'),
+
+        ('factors_kept', 'awaited(self._g_factor) is old(awaited(self._g_factor)) and awaited(self._a_factor) is old(awaited(self._a_factor))'),
+
         ('alone_nothing_sent', 'implies(group_size(group) == 1, trace() == old(trace()))'),
         ('events', 'implies(group_size(group) != 1, len(trace()) == len(old(trace())) + 2)'),
     ],
